@@ -118,6 +118,9 @@ type fecDecoder struct {
 	// record the latest recovered shard id
 	// the shards smaller than this one will be discarded
 	newestShardId uint32
+	// false until the first packet after start (or after a change of the
+	// shard size) has told where in the sequence space the peer is
+	horizonSet bool
 
 	// caches
 	decodeCache [][]byte
@@ -202,6 +205,7 @@ func (dec *fecDecoder) decode(in fecPacket) (recovered [][]byte) {
 					}
 				}
 				dec.shardSet = make(map[uint32]*shardHeap) // empty the shard set
+				dec.horizonSet = false                     // group numbers change with the shard size
 				codec, err := reedsolomon.New(autoDS, autoPS)
 				if err != nil {
 					return nil
@@ -221,6 +225,13 @@ func (dec *fecDecoder) decode(in fecPacket) (recovered [][]byte) {
 
 	// get the shard heap for this shard id
 	shardId := dec.getShardId(in.seqid())
+	if !dec.horizonSet {
+		// a horizon left at 0 (or counted in groups of the previous shard size)
+		// would make every set of a peer that is elsewhere in the sequence
+		// space look too old and be discarded at once
+		dec.newestShardId = shardId
+		dec.horizonSet = true
+	}
 	shard, ok := dec.shardSet[shardId]
 	if !ok {
 		shard = newShardHeap()
